@@ -108,58 +108,26 @@ def r2_alphabet(rep, ctx):
                   "separators emitted are exactly %s" % sorted(spec["seps"]),
                   "%s emits separators %s, the grammar has %s" % (name, sorted(seps), sorted(spec["seps"])), fn=fn)
         lits = set()
-        for node, e in _appends(fn.node, b.acc):
-            lits |= _fstring_literals(e)
-            if isinstance(e, ast.BinOp):
-                lits |= {c.value for c in ast.walk(e) if isinstance(c, ast.Constant) and isinstance(c.value, str)}
+        for node, e, roles in b.append_exprs:
+            if roles:
+                lits |= b.literals(e)
         rep.check(lits <= spec["lits"], "C20.R2", "%s:literals" % name,
                   "literal text inside factors is within %s" % sorted(spec["lits"]),
                   "%s renders factors with unexpected literal text %s" % (name, sorted(lits - spec["lits"])), fn=fn)
-        # each loop renders the exponent; the denominator renders it unsigned
-        loops = [n for n in own_statements(fn.node) if isinstance(n, ast.For)]
+        # each loop renders the exponent; the denominator renders it unsigned (both decided on the abstract
+        # states of the string-builder interpreter: an append reached with a negative exponent whose text
+        # derives from the exponent other than through abs() / unary minus)
+        loops = [n for n in own_statements(fn.node) if isinstance(n, ast.For) and id(n) in b.loop_renders_exp]
         if len(loops) < 1:
             raise AnalysisError("%s: no loop" % name)
         for i, lp in enumerate(loops):
-            names = [x.id for x in ast.walk(lp.target) if isinstance(x, ast.Name)]
-            if len(names) < 2:
-                raise AnalysisError("%s: loop target is not (factor, exponent)" % name)
-            expv = names[-1]
-            exp_appends = [(node, e) for node, e in _appends(lp, b.acc) if any(isinstance(x, ast.Name) and x.id == expv for x in ast.walk(e))]
-            rep.check(bool(exp_appends), "C20.R2", "%s:loop%d:renders-exponent" % (name, i),
+            rep.check(b.loop_renders_exp[id(lp)], "C20.R2", "%s:loop%d:renders-exponent" % (name, i),
                       "loop %d renders the exponent of a factor" % i, "%s: loop %d never renders the exponent: 'm2' and 'm' become indistinguishable" % (name, i), node=lp, fn=fn)
-        # denominator exponents unsigned: an append that mentions the exponent under a dominating `exp < 0`
-        for node, e in _appends(fn.node, b.acc):
-            under_neg = False
-            p = getattr(node, "_parent", None)
-            child = node
-            while p is not None and p is not fn.node:
-                if isinstance(p, ast.If) and child in p.body and isinstance(p.test, ast.Compare) and isinstance(p.test.ops[0], ast.Lt) \
-                        and isinstance(p.test.comparators[0], ast.Constant) and p.test.comparators[0].value == 0:
-                    under_neg = True
-                child = p
-                p = getattr(p, "_parent", None)
-            if not under_neg:
-                continue
-            for fv in ast.walk(e):
-                uses = None
-                if isinstance(fv, ast.FormattedValue):
-                    uses = fv.value
-                elif isinstance(fv, ast.Call) and isinstance(fv.func, ast.Name) and fv.func.id == "str" and fv.args:
-                    uses = fv.args[0]
-                if uses is None:
-                    continue
-                lpvars = None
-                q = node
-                while q is not None and not isinstance(q, ast.For):
-                    q = getattr(q, "_parent", None)
-                if q is None:
-                    continue
-                expv = [x.id for x in ast.walk(q.target) if isinstance(x, ast.Name)][-1]
-                if any(isinstance(x, ast.Name) and x.id == expv for x in ast.walk(uses)):
-                    unsigned = any((isinstance(x, ast.Call) and isinstance(x.func, ast.Name) and x.func.id == "abs") or
-                                   (isinstance(x, ast.UnaryOp) and isinstance(x.op, ast.USub)) for x in ast.walk(uses))
-                    rep.check(unsigned, "C20.R2", "%s:unsigned:%s" % (name, norm(ast.unparse(node))),
-                              "a denominator exponent is rendered through abs()", "%s renders a negative exponent with its sign after the '/'" % name, node=node, fn=fn)
+        signed = {id(node) for kind, node, st in b.events if kind == "signed-exponent"}
+        for node, e, roles in b.append_exprs:
+            if roles & {"exp", "uexp"} and any(st.sign == "NEG" for st in b.append_states.get(id(node), ())):
+                rep.check(id(node) not in signed, "C20.R2", "%s:unsigned:%s" % (name, norm(ast.unparse(node))),
+                          "a denominator exponent is rendered through abs()", "%s renders a negative exponent with its sign after the '/'" % name, node=node, fn=fn)
 
 
 def r3_simple(rep, ctx):
